@@ -4,10 +4,13 @@ import Olla.Spec.C02
 namespace Olla.Driver.C02
 open Lean Olla.Driver Olla.Driver.Retry Olla.Model.Retry Olla.Spec.C02
 
-/-- An Olla-made error as the handlers produce it: 502 text/plain "Proxy error: …" / "Service unavailable: …". -/
-def isOllaError (status : Nat) (ct : String) (body : List UInt8) : Bool :=
-  status == 502 && ct.startsWith "text/plain" &&
-  (("Proxy error:".toUTF8.toList).isPrefixOf body || ("Service unavailable:".toUTF8.toList).isPrefixOf body)
+/-- An error answer made by Olla itself rather than relayed from a backend: an error status, text/plain, none of the
+    marker headers the scripted backends put on everything they say, and a body that does not begin like any
+    backend's body. (The wording of the text is Olla's business: "Proxy error: …", "Service unavailable: …", …) -/
+def isOllaError (status : Nat) (ct : String) (hdrs : List (String × String)) (body : List UInt8) (backendBodies : List (List UInt8)) : Bool :=
+  status ≥ 400 && ct.startsWith "text/plain" &&
+  !(hdrs.any (fun h => h.1 == "X-Backend")) &&
+  backendBodies.all (fun b => b.isEmpty || body.isEmpty || !((body.take 8).isPrefixOf b))
 
 def handle (j : Json) : IO Unit := do
   let case := jnat (jget j "case")
@@ -34,13 +37,13 @@ def handle (j : Json) : IO Unit := do
   let mView := clientStatus tr
   let implOffline := (eps.filter (fun e => jstr (jget (jget impl "statuses") e.name) == "offline")).map (·.idx)
   let viewAgree := match mView with
-    | none => isOllaError cStatus (jstr (jget cl "content_type")) cBody
+    | none => isOllaError cStatus (jstr (jget cl "content_type")) cHdrs cBody (eps.map (·.resp.body))
     | some (_, s, h) => cStatus == s && cHdrs == h && cBody.isPrefixOf (clientBody tr)
         && (match res with | .served _ => cBody == clientBody tr && cErr == "" | _ => true)
   let agree := order == mOrder && viewAgree && implOffline.all (mOffline.contains ·) && mOffline.all (implOffline.contains ·)
   -- spec on the implementation's own observations
   let said := eps.map (fun e => ({ name := e.idx, status := e.resp.status, headers := e.resp.headers, body := e.resp.body } : Said))
-  let ollaErr := isOllaError cStatus (jstr (jget cl "content_type")) cBody
+  let ollaErr := isOllaError cStatus (jstr (jget cl "content_type")) cHdrs cBody (eps.map (·.resp.body))
   let got : Option Got := if ollaErr || cErr == "eof-before-status" then none else some { status := cStatus, headers := cHdrs, body := cBody }
   let spec := singleAttempt said order got
   let kinds := String.intercalate "," (eps.map (·.kind))
